@@ -66,11 +66,14 @@ func c08(r *rt.Run) {
 		ka, kx, ky := name2("/a"), name2("/x"), name2("/y")
 		W := []ast.Constant{ast.Number(1), ast.Number(2), ast.Number(1 + 1<<52), ast.Number(1 + 1<<53), ast.Number(1 + 1<<54), ast.Number(1 + 1<<56), ast.Number(1 + 1<<60), ast.Number(1 + 1<<62), ast.Number(math.MinInt64 + 1),
 			ast.Float64(1.5), ast.Float64(-1.5), ast.Float64(13.4), ast.Float64(-13.4), ast.Float64(0), ast.Float64(math.Copysign(0, -1)), ast.Float64(52.5),
-			ast.Time(1), ast.Time(1 + 1<<54), ast.Duration(1), ast.Duration(1 + 1<<54), ast.String("a"), ast.String("b")}
+			ast.Time(1), ast.Time(1 + 1<<54), ast.Duration(1), ast.Duration(1 + 1<<54), ast.String("a"), ast.String("b"),
+			// the same integral value as a number and as a float, below and above 2^53
+			ast.Number(4), ast.Float64(4), ast.Number(1 << 53), ast.Float64(1 << 53), ast.Number(1<<53 + 2), ast.Float64(1<<53 + 2), ast.Number(10000000000000000), ast.Float64(1e16), ast.Number(1 << 62), ast.Float64(1 << 62)}
 		for wi, w := range W {
 			w := w
 			how := fmt.Sprintf("later-component leaf %d", wi)
 			add := func(c ast.Constant, shape string) { U = append(U, gen.Named{C: c, How: shape + " over " + how}) }
+			add(w, "leaf")
 			add(*ast.Struct(map[*ast.Constant]*ast.Constant{&ka: &one, &kx: &w}), "struct {/a:1,/x:w}")
 			add(*ast.Struct(map[*ast.Constant]*ast.Constant{&ka: &one, &kx: &w, &ky: &one}), "struct {/a:1,/x:w,/y:1}")
 			add(*ast.Struct(map[*ast.Constant]*ast.Constant{&kx: &one, &ka: &w}), "struct {/x:1,/a:w}")
